@@ -117,3 +117,30 @@ Example C04_history_nonvacuous :
   find_mac ex_mac1 (macs s8) = None.
 Proof. exact ex_history_abs. Qed.
 Print Assumptions C04_history_nonvacuous.
+
+(* ---- the three deadlines ----
+   All statements above hold for every configuration: no ordering between OfflineDeadline, PurgeDeadline and
+   ProbeDeadline is assumed (NewSession enforces only Probe <= Offline; PurgeDeadline is free).  The reference is the
+   property text -- offline after OfflineDeadline of silence, removed when offline and silent longer than PurgeDeadline.
+   ProbeDeadline is part of the configuration and read by no step of the model and of the reference: *)
+Theorem C04_probe_deadline_irrelevant : forall p c s o, step (set_probe p c) s o = step c s o.
+Proof. exact probe_independent_proof. Qed.
+Print Assumptions C04_probe_deadline_irrelevant.
+
+Theorem C04_probe_deadline_irrelevant_ref : forall p c a o k, ref_step (set_probe p c) a o k = ref_step c a o k.
+Proof. exact probe_independent_ref_proof. Qed.
+Print Assumptions C04_probe_deadline_irrelevant_ref.
+
+(* PurgeDeadline (60) < ProbeDeadline (120) <= OfflineDeadline (300): an address that is offline by IPv4 supersession
+   (last seen 10) is removed by the purge at 75 -- past its purge deadline, not past the probe deadline -- and is still
+   tracked at 70 *)
+Example C04_purge_below_probe_deadline :
+  new_session dl_cfg 0 = Ok dl_s0 /\
+  hist_wfb dl_cfg dl_s0 (dl_history 75) = true /\
+  option_map (fun e => (a_online e, a_last e)) (abs (run dl_cfg dl_s0 (firstn 2 (dl_history 75))) (IP4 3232235521)) = Some (false, 10%Z) /\
+  abs (run dl_cfg dl_s0 (dl_history 70)) (IP4 3232235521) <> None /\
+  abs (run dl_cfg dl_s0 (dl_history 75)) (IP4 3232235521) = None /\
+  ref_run dl_cfg (ref_init dl_cfg 0) (dl_history 75) (IP4 3232235521) = None /\
+  option_map a_online (abs (run dl_cfg dl_s0 (dl_history 75)) (IP4 3232235522)) = Some true.
+Proof. exact purge_below_probe_example. Qed.
+Print Assumptions C04_purge_below_probe_deadline.
